@@ -173,9 +173,11 @@ func (g *guard) ReleaseTreasureGuard(guardID ID) {
 
 	if len(g.waitForUnlock) > 0 && g.waitForUnlock[0] == int64(guardID) {
 		g.waitForUnlock = g.waitForUnlock[1:]
-		if len(g.waitForUnlock) == 0 {
-			atomic.StoreInt64(&g.largestGuardID, 0)
-		}
+		// The ID counter is deliberately never reset: guard IDs must stay unique
+		// for the lifetime of the guard. If they restarted from 1 whenever the
+		// queue empties, a duplicate or stale ReleaseTreasureGuard call (e.g. the
+		// caller's deferred release after SaveFunction already released the guard)
+		// would match — and release — the ticket of a later holder.
 		g.cond.Broadcast()
 		return
 	}
